@@ -1567,8 +1567,10 @@ class Server:
 
     @ConnectionConditions(ConnectionConditions.login_required)
     async def abor(self, connection, rest):
-        if connection.extra_workers:
-            for worker in connection.extra_workers:
+        # finished worker can still be in set until dispatcher collects it
+        workers = [w for w in connection.extra_workers if not w.done()]
+        if workers:
+            for worker in workers:
                 worker.cancel()
         else:
             connection.response("226", "nothing to abort")
